@@ -194,3 +194,26 @@ def history_discipline(F, f):
         for c in pushes:
             ok = bool(pops) and must_pass(cfg, c, [x['i'] for x in pops] + [x['i'] for x in early])
             yield c, p['n'], ok, '%d pop_back, %d literal returns' % (len(pops), len(early))
+
+
+def rule_progress(F, rep, rid, pred, floor, where_txt):
+    """Shared rule: a self-recursive call does not pass exactly the function's own parameters on (same object): it would recurse for ever."""
+    from facts import AnalysisBroken, render
+    rep.rule(rid, 'a function of %s that calls itself makes progress: the recursive call does not receive exactly the function\'s own arguments again on the same object (the walk must continue from the child/neighbour/next reference, not from where it started)' % where_txt)
+    n = 0
+    for g in F.funcs.values():
+        if not pred(g):
+            continue
+        for c in g.walk():
+            if c.get('k') == 'Call' and not c.get('opc') and g.key in F.callee_keys(c):
+                args = c['c'][1:] if c.get('mc') else c['c']
+                if not args:
+                    continue
+                n += 1
+                same = all(a.get('k') == 'Ref' and a.get('dk') == 'parm' and i < len(g.params) and a.get('d') == g.params[i]['d'] for i, a in enumerate(args))
+                reassigned = any(((x.get('k') == 'Call' and x.get('opc') == '=') or (x.get('k') == 'Bin' and x.get('op') == '=')) and x['c'][0].get('k') == 'Ref' and x['c'][0].get('dk') == 'parm' for x in g.walk())
+                other_obj = c.get('mc') and c.get('c') and c['c'][0].get('k') not in ('This', 'NoObj') and render(c['c'][0]) != 'this'
+                rep.check(not same or reassigned or other_obj, rid, '%s|%s' % (g.short.split('::')[-1], render(c)[:50]), g.where(c),
+                          '%s calls itself with its own arguments unchanged: the traversal never leaves the node it started from (unbounded recursion)' % g.short, 'arguments change')
+    if n < floor:
+        raise AnalysisBroken('%s: only %d self-recursive calls found in %s (%d confirmed)' % (rid, n, where_txt, floor))
